@@ -917,6 +917,7 @@ func main() {
 		"crash = panic inside the persistence hook before write k, raw stores closed, directory reopened (cross-checked against real child-process exits on the shortest histories)",
 		"block contents: empty, one state-changing registerCandidate, one failing registerCandidate (cross-chain vote-import blocks are not in the alphabet)",
 		"4 validators, private net (network id 0); blocks are built once by the crash-free twin and replayed byte-identically")
+	os.RemoveAll(scratch) // Finish exits the process: deferred cleanup would not run
 	r.Finish(map[string]any{
 		"rule":                           "crash before every durable write k of genesis init and of every block of every history; reopen == crash-free twin at recovered height (h or h-1, never a mixture); next honest blocks accepted; second reopen equal",
 		"history_length":                 L,
